@@ -35,6 +35,13 @@ Definition fuel_for (pr : prog) (source : list gty) : nat :=
 Definition source_in_universe (pr : prog) (source : list gty) : bool :=
   forallb (fun t => mem_gty t (universe pr (model_enums pr) (fetch_unions pr))) source.
 
+(** the real analysis also analyses (and registers) the struct type of an embedded field before it merges its
+    fields into the embedding struct: such a position is not linked from any node, but it is in Types *)
+Definition embedded_struct_ids (pr : prog) : list gty :=
+  flat_map (fun d => match n_under d with
+                     | UStruct fs => flat_map (fun f => if f_embedded f then match f_type f with GNamed id => [GNamed id] | _ => [] end else []) fs
+                     | _ => [] end) (pr_types pr).
+
 Definition chk_model (c : c12_case) : bool :=
   let pr := c12_prog c in let a := c12_ana c in
   match analyse_closure pr (model_enums pr) (fetch_unions pr) (c12_source c) (fuel_for pr (c12_source c)), ao_outcome a with
@@ -42,12 +49,15 @@ Definition chk_model (c : c12_case) : bool :=
       (* every position of the model closure was reached, with the same node description *)
       forallb (fun ts => existsb (fun n => gty_eqb (nr_at n) (fst ts) && node_matches (snd ts) n) (ao_nodes a)) cl
       (* nothing else was reached *)
-      && forallb (fun n => mem_gty (nr_at n) (map fst cl)) (ao_nodes a)
+      && forallb (fun n => mem_gty (nr_at n) (map fst cl) || mem_gty (nr_at n) (embedded_struct_ids pr)) (ao_nodes a)
       (* every node at one position has the same description *)
-      && forallb (fun n => match find (fun ts => gty_eqb (fst ts) (nr_at n)) cl with Some ts => node_matches (snd ts) n | None => false end) (ao_nodes a)
+      && forallb (fun n => match find (fun ts => gty_eqb (fst ts) (nr_at n)) cl with
+                           | Some ts => node_matches (snd ts) n
+                           | None => match classify pr (model_enums pr) (fetch_unions pr) (nr_at n) with Ok sh => node_matches sh n | _ => false end
+                           end) (ao_nodes a)
       (* Types holds exactly the (real) positions of the closure *)
       && forallb (fun ts => is_synthetic (fst ts) || mem_gty (fst ts) (ao_types_keys a)) cl
-      && forallb (fun k => mem_gty k (map fst cl)) (ao_types_keys a)
+      && forallb (fun k => mem_gty k (map fst cl) || mem_gty k (embedded_struct_ids pr)) (ao_types_keys a)
       && gtys_eqb (ao_source a) (c12_source c)
       && source_in_universe pr (c12_source c)
   | Diag _, OutDiag _ => true
